@@ -43,11 +43,27 @@ def scenarios(draw):
         ev = draw(st.sampled_from(["headers", "headers", "data", "request_complete", "response_sent", "settings_ack"]))
         act = draw(st.sampled_from([{"settings": {"3": v}} for v in (1, 1, 2, 3, 5, 100)] + [{"rst": {"sid": "last"}}, {"rst": {"sid": "first"}}, {"ping": True}]))
         script.append({"when": {"event": ev, "n": draw(st.integers(0, 4))}, "do": [act]})
+    if n >= 3 and draw(st.integers(0, 2)) == 0:
+        # a reactive server: the response to one request is produced only after ANOTHER request has been received. A correct client
+        # always gets there provided more than one stream slot exists, so the limit is kept >= 2 in these scenarios.
+        i = draw(st.integers(0, n - 1))
+        j = draw(st.integers(0, n - 2))
+        j = j if j < i else j + 1
+        plans[callers[i]["tok"]]["after_request"] = callers[j]["tok"]
+        if callers[j]["mode"] == "hold":
+            callers[j]["mode"] = "read_all"
+        mcs0 = mcs0 if mcs0 in (2, 3, 5, 100) else 3
+        script = [item for item in script if not any("settings" in a and int(a["settings"]["3"]) < 2 for a in item["do"])]
     return {"kind": kind, "callers": callers, "plans": plans, "mcs0": mcs0, "script": script, "max_connections": draw(st.sampled_from([1, 1, 2])),
             "choices": draw(st.lists(st.integers(0, 15), min_size=10, max_size=160)), "segs": draw(st.lists(st.sampled_from([0, 0, 1, 5, 9, 13, 100]), max_size=5))}
 
 
 def run(sc):
+    total = sum(pl.get("body_len", 0) + 60 for pl in sc["plans"].values())
+    floor = total // 1500 + 1  # keep one case cheap: tiny read segments only together with little data
+    if any(0 < s_ < floor for s_ in sc["segs"]):
+        sc = dict(sc)
+        sc["segs"] = [s_ if (s_ == 0 or s_ >= floor) else floor for s_ in sc["segs"]]
     init = {} if sc["mcs0"] is None else {"3": sc["mcs0"]}
     pool_cfg, cfg, scheme = topo(sc["kind"], plans=sc["plans"], pool_extra={"max_connections": sc["max_connections"]},
                                  h2={"initial_settings": init, "script": [dict(x) for x in sc["script"]]})
@@ -122,6 +138,15 @@ def execute(sc) -> Outcome:
                 vio.append(V(P, "wrong-data", f"{sc['kind']}: partial body of {tok} is not a prefix of its own DATA: {out['body'][:40]!r}", **base))
         elif out["body"] != exp and not reset:
             vio.append(V(P, "wrong-data", f"{sc['kind']}: {tok} received {len(out['body'])} bytes, its stream carried {len(exp)}: starts {out['body'][:30]!r}", **base))
+    dep_failed = False
+    for tok_, pl in sc["plans"].items():
+        d = pl.get("after_request")
+        if d is not None:
+            dc = next((c for c in callers if c.program[0]["tok"] == d), None)
+            if dc is not None and dc.results and dc.results[0]["exc"] is not None:
+                dep_failed = True  # the request a reactive response waits for failed itself: the wedge is a consequence of that failure
+    if dep_failed:
+        base["prerequisite_request_failed"] = True
     if r.deadlock is not None:
         vio.append(V(P, "wedged", f"{sc['kind']}: callers {r.deadlock['blocked']} never return (parked ops {r.deadlock['parked']}) although the server has sent or can "
                      f"send everything it owes; initial MAX_CONCURRENT_STREAMS {sc['mcs0']}, script {sc['script']}; pool {r.pool!r}", **base))
@@ -144,6 +169,8 @@ def execute(sc) -> Outcome:
         tags.append("abandoned")
     if zero:
         tags.append("mcs-zero")
+    if any("after_request" in pl for pl in sc["plans"].values()):
+        tags.append("reactive-server")
     nontrivial = max_open >= 3 and (lowered or settings_changes > 1 or n_reset > 0 or abandon)
     return Outcome(vio[:5], tags, nontrivial, info={"max_open": max_open, "steps": r.steps, "final": r.final_repr,
                                                    "outcomes": [(c.results[0].get("status") or c.results[0]["exc"]["name"]) if c.results else "unfinished" for c in callers]})
